@@ -412,7 +412,17 @@ class ConfigWorld(ProcBase):
         return {"op": "spawn", "cfg": cfg, "preimport": rng.choice(PREIMPORTS)}
 
     def apply(self, op):
-        path, calls, ref = self._scenario()
+        try:
+            path, calls, ref = self._scenario()
+        except (ValueError, TypeError, KeyError) as e:
+            # the fixtures are valid by construction (keys shared between roles included); a builder / signer that refuses them is a finding
+            import traceback
+            tb = traceback.extract_tb(e.__traceback__)
+            if tb and tb[-1].filename.startswith(self.lib.dir):
+                self.run.violate(("C02", "C16", "C05", "C03"), "valid-fixture-rejected", "building the (valid) fixtures of the configuration scenario failed "
+                                 "inside the library: %s: %s" % (type(e).__name__, str(e)[:200]), "valid-fixture-rejected:" + type(e).__name__)
+                return
+            raise
         if self.run.stop:
             return
         cfg = op["cfg"]
@@ -557,6 +567,16 @@ class CliWorld(ChainWorld):
             data = b"\xef\xbb\xbf" + refcanon(doc)
         elif special == "binary":
             data = b"\xff\xfe\x00\x01"
+        elif special == "dup_first" and isinstance(doc, dict) and set(doc) == {"signatures", "signed"}:
+            # member names written twice: the genuine signature map first, an empty one last.  Every JSON reader of the ecosystem keeps the
+            # last one, so this file holds an unsigned document
+            data = ("{\n \"signatures\": %s,\n \"signed\": %s,\n \"signatures\": {},\n \"signed\": %s\n}"
+                    % (json.dumps(doc["signatures"]), json.dumps(doc["signed"]), json.dumps(doc["signed"]))).encode("ascii")
+        elif isinstance(special, str) and special.startswith("trailing:"):
+            # a complete document, blanks up to a round offset, then something that is not JSON: not a JSON file at all
+            n = int(special.split(":")[1])
+            data = refcanon(doc)
+            data = data + b" " * max(0, n - len(data)) + b"\n{\"x\": 1}"
         else:
             from world_storage import dump_as
             try:
@@ -668,12 +688,69 @@ class CliWorld(ChainWorld):
                              % (why, op["entry"], p.returncode, success_line, cfg, p.stderr.decode("utf-8", "replace")[-300:]),
                              "accepted-but-nonzero:" + op["entry"])
         elif not accepted and p.returncode == 0:
-            self.run.violate(("C17",), "rejected-but-zero",
+            self.run.violate(("C17", "C04", "C03"), "rejected-but-zero",
                              "library rejects (%s) but entry point %r exited 0 (success line printed: %s)" % (why, op["entry"], success_line),
                              "rejected-but-zero:" + op["entry"])
         elif not accepted and success_line:
             self.run.violate(("C17",), "rejected-but-success-line", "library rejects (%s) but a success line was printed" % why,
                              "rejected-but-success-line:" + op["entry"])
+
+    def op_cli_argv(self, op):
+        """Odd argument vectors (missing / extra / empty / repeated arguments, unknown options, shortened sub-command names, '--')
+        for the verifying and signing sub-commands, over inputs that cannot succeed: the untrusted file is unsigned, the key file is
+        unusable.  However the arguments are read, status 0 would report a verification / signing that did not happen; and the
+        file named for signing is unchanged."""
+        T = self.head
+        U = self._mk_km_doc({"keys": [0], "signers": [], "version": 1})          # unsigned key_mgr document: nothing accepts it
+        if U is None:
+            return self.run.ev("noop")
+        t, u = self._write(T, "canon", None), self._write(U, "canon", None)
+        self.nfile += 1
+        rpath = os.path.join(self.scratch, "argv-repodata%d.json" % self.nfile)
+        kpath = os.path.join(self.scratch, "argv-key%d.hex" % self.nfile)
+        before = refcanon({"info": {}, "packages": {"a-1-0.tar.bz2": {"name": "a"}}, "packages.conda": {}})
+        with open(rpath, "wb") as f:
+            f.write(before)
+        with open(kpath, "w") as f:
+            f.write("zz" + self.keys.seeds[0].hex()[2:])
+        forms = {
+            "v_missing": ["verify-metadata", t], "v_extra": ["verify-metadata", t, u, "extra"], "v_empty": ["verify-metadata", t, ""],
+            "v_empty_first": ["verify-metadata", "", u], "v_short": ["verify-meta", t, u], "v_option": ["verify-metadata", "--force", t, u],
+            "v_trailing_option": ["verify-metadata", t, u, "--quiet"], "v_dashes": ["verify-metadata", "--", t, u], "v_twice": ["verify-metadata", "verify-metadata", t, u],
+            "v_same": ["verify-metadata", u, u], "v_chain3": None, "v_swapped": ["verify-metadata", u, t], "v_plain": ["verify-metadata", t, u],
+            "s_missing": ["sign-artifacts", rpath], "s_extra": ["sign-artifacts", rpath, kpath, "x"], "s_empty_key": ["sign-artifacts", rpath, ""],
+            "s_short": ["sign-art", rpath, kpath], "s_option": ["sign-artifacts", "--yes", rpath, kpath], "s_dashes": ["sign-artifacts", "--", rpath, kpath],
+            "s_key_is_file": ["sign-artifacts", rpath, rpath], "s_swapped": ["sign-artifacts", kpath, rpath], "s_plain": ["sign-artifacts", rpath, kpath],
+        }
+        if op["form"] == "v_chain3":
+            # trusted root, then a self-made "successor" signed only by its own key, then a successor of that one: a consistent forged chain
+            a = op.get("key", 0) % len(self.keys)
+            try:
+                v = int(T["signed"]["version"])
+            except (KeyError, TypeError, ValueError):
+                v = 1
+            R2 = self._mk_km_doc({"keys": [a], "signers": [a], "version": v + 1, "style": "pgp", "root_like": True})
+            R3 = self._mk_km_doc({"keys": [a], "signers": [a], "version": v + 2, "style": "pgp", "root_like": True})
+            if R2 is None or R3 is None or self.keys.pub[a] in T["signed"]["delegations"].get("root", {}).get("pubkeys", []):
+                return self.run.ev("noop")
+            forms["v_chain3"] = ["verify-metadata", t, self._write(R2, "canon", None), self._write(R3, "canon", None)]
+        args = forms.get(op["form"])
+        if args is None:
+            return self.run.ev("noop")
+        cfg = op["cfg"]
+        p = subprocess.run(self._cmd(op["entry"], args, cfg), env=child_env(cfg), cwd=self.scratch, capture_output=True, timeout=120, stdin=subprocess.DEVNULL)
+        self.run.probe("process_spawned")
+        self.run.probe("cli_odd_argv")
+        self.run.rejects += 1
+        self.run.fp("cli-argv", op["form"], p.returncode)
+        if p.returncode == 0:
+            self.run.violate(("C17", "C04"), "rejected-but-zero", "`%s %s` exited 0 although nothing was (or could be) verified / signed"
+                             % (op["entry"], " ".join(a if a else "''" for a in [os.path.basename(x) if x.startswith(self.scratch) else x for x in args])),
+                             "rejected-but-zero:argv:" + op["form"])
+            return
+        if op["form"].startswith("s_") and open(rpath, "rb").read() != before:
+            self.run.violate(("C17", "C18"), "sign-nonzero-but-file-changed", "sign-artifacts exited %d but changed the file (form %s)" % (p.returncode, op["form"]),
+                             "sign-nonzero-but-file-changed:argv")
 
     def op_cli_cross(self, op):
         """Directed pair for verify-metadata: the trusted file is a key_mgr document delegating the named roles to one key; the
@@ -919,7 +996,7 @@ class CliWorld(ChainWorld):
             if rng.random() < 0.1:
                 op["raw"] = rng.choice(["", "{", "[]", "{\"signed\": 1}"])
             return op
-        if r < 0.45:
+        if r < 0.40:
             # a CLI verification of some pair
             ts = [["chain", i] for i in range(len(self.honest_chain))] + [["trusted", 0]]
             us = [["repo", i] for i in range(len(self.repo_order))] + [["crafted", i] for i in range(len(self.crafted))] + \
@@ -947,9 +1024,10 @@ class CliWorld(ChainWorld):
             op = {"op": "cli_verify", "t": t, "u": u, "entry": rng.choice(ENTRIES), "cfg": cfg,
                   "tfmt": rng.choice(["canon", "canon", "compact", "indent4", "crlf", "utf8"]),
                   "ufmt": rng.choice(["canon", "canon", "compact", "unsorted", "crlf", "utf8"])}
-            if rng.random() < 0.12:
-                s = rng.choice(["missing", "dir", "empty", "notjson", "bom", "binary"])
-                op["special"] = [s, None] if rng.random() < 0.4 else [None, s]
+            if rng.random() < 0.2:
+                ns = [512, 4096, 65536, 1 << 20] + gen.harvested(1024, 16 << 20, around=False) * 3
+                s = rng.choice(["missing", "dir", "empty", "notjson", "bom", "binary", "dup_first", "dup_first", "trailing:%d" % rng.choice(ns), "trailing:%d" % rng.choice(ns)])
+                op["special"] = [s, None] if rng.random() < 0.4 and not s.startswith(("dup", "trailing")) else [None, s]
             elif rng.random() < 0.25:
                 op["spell"] = rng.choice(["symdotdot", "symdotdot", "dotslash", "relative"])
                 # the decoy at the textually collapsed location gets the opposite verdict where possible
@@ -959,9 +1037,15 @@ class CliWorld(ChainWorld):
                 elif self.crafted:
                     op["decoy"] = ["crafted", rng.randrange(len(self.crafted))]
             return op
-        if r < 0.47:
+        if r < 0.44:
+            return {"op": "cli_argv", "entry": rng.choice(ENTRIES), "cfg": cfg,
+                    "key": rng.randrange(nk), "form": rng.choice(["v_chain3", "v_chain3", "v_chain3", "v_missing", "v_extra", "v_empty", "v_empty_first", "v_short", "v_option", "v_trailing_option", "v_dashes", "v_twice", "v_same",
+                                        "v_swapped", "v_plain", "s_missing", "s_extra", "s_empty_key", "s_short", "s_option", "s_dashes", "s_key_is_file", "s_swapped",
+                                        "s_plain"])}
+        if r < 0.48:
             a, b = rng.sample(range(nk), 2) if nk >= 2 else (0, 0)
-            return {"op": "cli_cross", "key": a, "other": b, "roles": rng.choice([["root"], ["root", "key_mgr"], ["key_mgr"], []]),
+            return {"op": "cli_cross", "key": a, "other": b, "roles": rng.choice([["root"], ["root", "key_mgr"], ["key_mgr"], [], ["root.json"], ["key_mgr.json"],
+                                                                                  ["pkg_mgr.json", "key_mgr.json"], ["Root"], ["root "]]),
                     "u_type": rng.choice(["root", "root", "key_mgr", "pkg_mgr"]), "u_version": rng.choice([1, 2, 5]), "style": rng.choice(["raw", "raw", "pgp"]),
                     "signer": rng.choice(["delegated", "delegated", "other"]), "entry": rng.choice(ENTRIES), "cfg": cfg}
         if r < 0.52:
